@@ -315,6 +315,20 @@ func (r *rig) script(req *mesh.Req) mesh.Action {
 		act.Hold = hold
 	case "reset":
 		act.Kind = "reset"
+	case "vanish": // the whole upstream side goes away under the request: every host refuses from now on, live connections are reset
+		for _, u := range r.ups {
+			if u != nil {
+				atomic.StoreInt32(&u.Refuse, 1)
+			}
+		}
+		act.Kind = "reset"
+		go func() {
+			for _, u := range r.ups {
+				if u != nil {
+					u.KillConns(true)
+				}
+			}
+		}()
 	case "close":
 		act.Kind = "close"
 	case "okclose":
@@ -720,7 +734,7 @@ func (r *rig) isOrphanStream(sig string, o obs) bool {
 		return false
 	}
 	st := r.info.Stats()
-	otherReset := r.did("reset")+r.did("close")+r.did("okclose") > 0 || st.UpstreamConnectionConFail.Count() > 0 || !allOK(r.su.Hosts)
+	otherReset := r.did("reset")+r.did("vanish")+r.did("close")+r.did("okclose") > 0 || st.UpstreamConnectionConFail.Count() > 0 || !allOK(r.su.Hosts)
 	return otherReset && st.UpstreamRequestTimeout.Count() >= o.LsnReqAct
 }
 
